@@ -99,6 +99,9 @@ structure WCfg where
   link : Cfg := {}
   fixConnectLeak : Bool := false
   fixFinRedrain : Bool := false
+  /-- repair of F-C04-1: a write on a stream whose socket is gone (reset by the peer) fails at once,
+      before the flow-control credit check -/
+  fixWriterReset : Bool := false
   deriving Repr, Inhabited
 
 structure World where
